@@ -56,6 +56,54 @@ def _current_key(e, aliases=()):
     return None
 
 
+def frac_round_trip(ctx, rid, alias_curr=None):
+    """Accumulators survive a restart: written for every path of traj_data under
+    str(path number), read back under the same key form."""
+    tree = ctx.tree
+    wt = tree.func(REPEX, "REPEX_state.write_toml")
+    if alias_curr is None:
+        alias_curr = {}
+        for g in (wt, tree.func(REPEX, "REPEX_state.load_paths")):
+            al = set()
+            for n in walk_local(g):
+                if isinstance(n, ast.Assign) and len(n.targets) == 1 and isinstance(n.targets[0], ast.Name):
+                    b, ks = keys_chain(n.value)
+                    if [k for k in ks if k != ".config"] == ["current"]:
+                        al.add(n.targets[0].id)
+            alias_curr[id(g)] = al
+    # frac: keyed by str(path number) on both sides
+    wkey = rkey = None
+    for n in walk_local(wt):
+        if isinstance(n, ast.Assign):
+            for t in n.targets:
+                if isinstance(t, ast.Subscript) and _current_key(t.value, alias_curr[id(wt)]) and _current_key(t.value, alias_curr[id(wt)])[0] == "frac":
+                    wkey = t.slice
+    lp = tree.func(REPEX, "REPEX_state.load_paths")
+    rkeys = []
+    for n in walk_local(lp):
+        if isinstance(n, ast.Call) and isinstance(n.func, ast.Attribute) and n.func.attr == "get" and _current_key(n.func.value, alias_curr[id(lp)]) and _current_key(n.func.value, alias_curr[id(lp)])[0] == "frac":
+            rkeys.append(n.args[0])
+        if isinstance(n, ast.Subscript) and isinstance(n.ctx, ast.Load) and _current_key(n.value, alias_curr[id(lp)]) and _current_key(n.value, alias_curr[id(lp)])[0] == "frac":
+            rkeys.append(n.slice)
+    def is_str(e):
+        return isinstance(e, ast.Call) and dotted(e.func) == "str"
+    if wkey is None or not rkeys:
+        ctx.bad(rid, wt, "accumulated weights are not written per path / not read back per path")
+    else:
+        if is_str(wkey) and all(is_str(r) for r in rkeys):
+            ctx.ok(rid, wkey, f"frac is written and read ({len(rkeys)} sites) under str(path number)")
+        else:
+            ctx.bad(rid, rkeys[0] if not all(is_str(r) for r in rkeys) else wkey,
+                    "frac is written under str(path number) (TOML keys are strings) but looked up with a different key form: restored weights silently fall back to zeros",
+                    construct=f"frac key: write {short(wkey, 30)} / read {[short(r, 30) for r in rkeys]}")
+    # write_toml serialises every live accumulator
+    it = [n for n in walk_local(wt) if isinstance(n, ast.For) and "traj_data" in ast.unparse(n.iter)]
+    if it and ("keys()" in ast.unparse(it[0].iter) or ast.unparse(it[0].iter).endswith("traj_data") or "sorted(" in ast.unparse(it[0].iter)) and not [x for x in walk_local(it[0]) if isinstance(x, (ast.Continue, ast.Break))]:
+        ctx.ok(rid, it[0], "write_toml iterates over all keys of traj_data (every live accumulator is persisted)")
+    else:
+        ctx.bad(rid, wt, "write_toml does not persist the accumulators of every path in traj_data")
+
+
 def r61(ctx):
     rid = "R-6.1"
     tree = ctx.tree
@@ -146,37 +194,7 @@ def r61(ctx):
                 ctx.ok(rid, n, "rng_state is read back into self.rgen.bit_generator.state")
     if not ok:
         ctx.bad(rid, sr, "the saved generator state is never restored into the scheduler stream")
-    # frac: keyed by str(path number) on both sides
-    wkey = rkey = None
-    for n in walk_local(wt):
-        if isinstance(n, ast.Assign):
-            for t in n.targets:
-                if isinstance(t, ast.Subscript) and _current_key(t.value, alias_curr[id(wt)]) and _current_key(t.value, alias_curr[id(wt)])[0] == "frac":
-                    wkey = t.slice
-    lp = tree.func(REPEX, "REPEX_state.load_paths")
-    rkeys = []
-    for n in walk_local(lp):
-        if isinstance(n, ast.Call) and isinstance(n.func, ast.Attribute) and n.func.attr == "get" and _current_key(n.func.value, alias_curr[id(lp)]) and _current_key(n.func.value, alias_curr[id(lp)])[0] == "frac":
-            rkeys.append(n.args[0])
-        if isinstance(n, ast.Subscript) and isinstance(n.ctx, ast.Load) and _current_key(n.value, alias_curr[id(lp)]) and _current_key(n.value, alias_curr[id(lp)])[0] == "frac":
-            rkeys.append(n.slice)
-    def is_str(e):
-        return isinstance(e, ast.Call) and dotted(e.func) == "str"
-    if wkey is None or not rkeys:
-        ctx.bad(rid, wt, "accumulated weights are not written per path / not read back per path")
-    else:
-        if is_str(wkey) and all(is_str(r) for r in rkeys):
-            ctx.ok(rid, wkey, f"frac is written and read ({len(rkeys)} sites) under str(path number)")
-        else:
-            ctx.bad(rid, rkeys[0] if not all(is_str(r) for r in rkeys) else wkey,
-                    "frac is written under str(path number) (TOML keys are strings) but looked up with a different key form: restored weights silently fall back to zeros",
-                    construct=f"frac key: write {short(wkey, 30)} / read {[short(r, 30) for r in rkeys]}")
-    # write_toml serialises every live accumulator
-    it = [n for n in walk_local(wt) if isinstance(n, ast.For) and "traj_data" in ast.unparse(n.iter)]
-    if it and ("keys()" in ast.unparse(it[0].iter) or ast.unparse(it[0].iter).endswith("traj_data") or "sorted(" in ast.unparse(it[0].iter)) and not [x for x in walk_local(it[0]) if isinstance(x, (ast.Continue, ast.Break))]:
-        ctx.ok(rid, it[0], "write_toml iterates over all keys of traj_data (every live accumulator is persisted)")
-    else:
-        ctx.bad(rid, wt, "write_toml does not persist the accumulators of every path in traj_data")
+    frac_round_trip(ctx, rid, alias_curr)
     # active is consumed in order and assigned as path number
     lpd = tree.func(PATH, "load_paths_from_disk")
     loops = [n for n in walk_local(lpd) if isinstance(n, ast.For) and _current_key(n.iter) and _current_key(n.iter)[0] == "active"]
